@@ -151,11 +151,34 @@ pub fn execute(case: &Case) -> (Vec<Finding>, u64) {
         }
     }
     // (2) through a simulation builder, configuration included before and after the nodes exist
-    for (before, readers, stack_after_cfg) in [(true, false, false), (false, false, false), (true, true, false), (true, false, true)] {
+    // `via`: 0 include_cfg, 1 the builder-chain form with_cfg, 2 include_cfg_file (not under Miri: needs the file system)
+    let variants: &[(bool, bool, bool, u8)] = if cfg!(miri) {
+        &[(true, false, false, 0), (false, false, false, 0), (true, true, false, 0), (true, false, true, 0), (true, false, false, 1), (false, false, false, 1)]
+    } else {
+        &[(true, false, false, 0), (false, false, false, 0), (true, true, false, 0), (true, false, true, 0), (true, false, false, 1), (false, false, false, 1), (true, false, false, 2), (false, false, false, 2)]
+    };
+    for &(before, readers, stack_after_cfg, via) in variants {
+        let include = |mut sim: des::net::SimBuilder<()>| -> des::net::SimBuilder<()> {
+            match via {
+                1 => sim.with_cfg(&yaml),
+                2 => {
+                    let p = std::env::temp_dir().join(format!("verif-c17-{}-{:?}.yml", std::process::id(), std::thread::current().id()));
+                    std::fs::write(&p, &yaml).expect("temp file for the configuration");
+                    let r = sim.include_cfg_file(&p);
+                    let _ = std::fs::remove_file(&p);
+                    r.expect("configuration file just written is readable");
+                    sim
+                }
+                _ => {
+                    sim.include_cfg(&yaml);
+                    sim
+                }
+            }
+        };
         let r = vcommon::catch(|| {
             let mut sim = Sim::new(());
             if before {
-                sim.include_cfg(&yaml);
+                sim = include(sim);
             }
             if stack_after_cfg {
                 // a builder option applied between the include and the creation of the nodes
@@ -176,7 +199,7 @@ pub fn execute(case: &Case) -> (Vec<Finding>, u64) {
                 }
             }
             if !before {
-                sim.include_cfg(&yaml);
+                sim = include(sim);
             }
             let mut out = Vec::new();
             for path in created.iter() {
@@ -189,6 +212,10 @@ pub fn execute(case: &Case) -> (Vec<Finding>, u64) {
             out
         });
         let how = match (before, readers) {
+            (true, false) if via == 1 => "with_cfg before node creation",
+            (false, false) if via == 1 => "with_cfg after node creation",
+            (true, false) if via == 2 => "include_cfg_file before node creation",
+            (false, false) if via == 2 => "include_cfg_file after node creation",
             (true, false) if stack_after_cfg => "include_cfg, then with_stack, then node creation",
             (true, false) => "include_cfg before node creation",
             (true, true) => "include_cfg before node creation, the node reads its properties while it is constructed",
